@@ -111,7 +111,7 @@ where
 {
     use std::cmp::Ordering;
     use std::collections::{BTreeSet, HashSet};
-    use std::hash::{Hash, Hasher};
+    use std::hash::Hasher;
     let h = |x: &T| {
         let mut s = std::collections::hash_map::DefaultHasher::new();
         x.hash(&mut s);
